@@ -23,101 +23,6 @@ theorem bytesOf_renderAll (ts : List XTok) : bytesOf ts = renderAll ts := by
   have : tokBytes = render := funext tokBytes_render
   simp only [bytesOf, renderAll, this]
 
-/-! ## the `?>` hazard of pseudo-attribute values -/
-
-theorem d2_mono (l : List DCh) (h : d2 false l = true) : ∀ p, d2 p l = true := by
-  intro p
-  cases l with
-  | nil => simp [d2] at h
-  | cons x r =>
-    simp only [d2, Bool.false_and, Bool.false_or] at h
-    simp [d2, h]
-
-theorem has2_append_none (a b : Char) (x y : List Char) (hx : ∀ c ∈ x, c ≠ a) :
-    has2 a b (x ++ y) = has2 a b y := by
-  induction x with
-  | nil => rfl
-  | cons c r ih =>
-    have hc : c ≠ a := hx c (by simp)
-    have : starts2 a b (c :: (r ++ y)) = false := by
-      cases hh : r ++ y <;> simp [starts2, hc]
-    simp only [List.cons_append, has2, this, Bool.false_or]
-    exact ih (fun c hc => hx c (by simp [hc]))
-
-/-- `?>` in a sequence of units shows in the decoded value -/
-theorem has2_flat (us : List XUnit) (hok : us.all XUnit.ok = true) :
-    has2 '?' '>' (flat us) = true → d2 false (us.map (XUnit.val true)) = true := by
-  induction us with
-  | nil => intro h; simp [flat, has2] at h
-  | cons u r ih =>
-    simp only [List.all_cons, Bool.and_eq_true] at hok
-    intro h
-    rw [flat_cons] at h
-    have tailcase : has2 '?' '>' (flat r) = true → d2 false ((u :: r).map (XUnit.val true)) = true := by
-      intro h2
-      simp only [List.map_cons, d2, Bool.false_and, Bool.false_or]
-      exact d2_mono _ (ih hok.2 h2) _
-    cases u with
-    | lit c =>
-      simp only [XUnit.chars, List.cons_append, List.nil_append, has2, Bool.or_eq_true] at h
-      rcases h with h | h
-      · cases r with
-        | nil => simp [flat, starts2] at h
-        | cons u' r' =>
-          rw [flat_cons] at h
-          cases u' with
-          | lit c' =>
-            simp only [XUnit.chars, List.cons_append, List.nil_append, starts2, Bool.and_eq_true, beq_iff_eq] at h
-            obtain ⟨rfl, rfl⟩ := h
-            simp [d2, XUnit.val, isS, lit]
-          | named nm => simp [XUnit.chars, starts2] at h
-          | dec ds => simp [XUnit.chars, starts2] at h
-          | hex ds => simp [XUnit.chars, starts2] at h
-      · exact tailcase h
-    | named nm =>
-      rw [has2_append_none _ _ _ _ (ref_chars_avoid _ hok.1 (by intro c h; cases h) '?' (by decide) (by decide) (by decide))] at h
-      exact tailcase h
-    | dec ds =>
-      rw [has2_append_none _ _ _ _ (ref_chars_avoid _ hok.1 (by intro c h; cases h) '?' (by decide) (by decide) (by decide))] at h
-      exact tailcase h
-    | hex ds =>
-      rw [has2_append_none _ _ _ _ (ref_chars_avoid _ hok.1 (by intro c h; cases h) '?' (by decide) (by decide) (by decide))] at h
-      exact tailcase h
-
-/-- a well-formed literal whose normalised value is free of `?>` is free of `?>` -/
-theorem wfAttrVal_has2 (w : List Char) (hw : WfAttrVal w) (hd : d2 false (attrValue w) = false) :
-    has2 '?' '>' w = false := by
-  obtain ⟨q, us, hq, hok, _, rfl⟩ := hw
-  have hv : attrValue (q :: (flat us ++ [q])) = us.map (XUnit.val true) := by
-    simp only [attrValue, unquote_wrap q hq (flat us)]
-    exact normAttr_flat us hok
-  rw [hv] at hd
-  have h1 : has2 '?' '>' (flat us) = false := by
-    cases h : has2 '?' '>' (flat us) with
-    | false => rfl
-    | true => rw [has2_flat us hok h] at hd; cases hd
-  have hq1 : q ≠ '?' := by rcases hq with rfl | rfl <;> decide
-  have hq2 : q ≠ '>' := by rcases hq with rfl | rfl <;> decide
-  have h2 : has2 '?' '>' (flat us ++ [q]) = false :=
-    has2_append_safe _ _ _ _ h1 (by simp [has2, starts2]) (by intro c hc; simp at hc; subst hc; exact hq2)
-  have := has2_append_none '?' '>' [q] (flat us ++ [q]) (by intro c hc; simp at hc; subst hc; exact hq1)
-  simpa using this.trans h2
-
-/-- the written pseudo-attribute value is free of `?>` unless the trigger of K-C09-Xml-1 holds -/
-theorem attrOut_has2 (v : List Char) (hv : WfAttrVal v) (h0 : has2 '?' '>' v = false) (hz : piValHazard v = false) :
-    has2 '?' '>' (attrOut v) = false := by
-  by_cases hh : v.head? = some '"'
-  · have hd : d2 false (attrValue v) = false := by
-      simpa [piValHazard, hh] using hz
-    obtain ⟨e1, e2⟩ := attr_token v hv
-    exact wfAttrVal_has2 _ e2 (by rw [e1]; exact hd)
-  · have : attrOut v = v := by
-      unfold attrOut
-      have : (v.head? != some '"') = true := by simpa [bne_iff_ne] using hh
-      simp [this]
-    rw [this]; exact h0
-
-
 /-! ## the loop keeps the lexer's shape and the token contracts -/
 
 theorem endTagOk_out (d n : List Char) (h : endTagOk d n = true) : endTagOk (endTagOut d n) n = true := by
@@ -146,17 +51,17 @@ theorem lexOk_emitText (d : List Char) (k : List XTok) (h : lexOk .content k = t
 theorem pi_flag (m : LexMode) : (m == LexMode.pi) = true ↔ m = .pi := by
   cases m <;> decide
 
-/-- the emitted stream has the shape and token forms of a lexer's stream again (unless K-C09-Xml-1) -/
+/-- the emitted stream has the shape and token forms of a lexer's stream again -/
 theorem emitGo_lexOk (o : XmlOpts) (n : Nat) : ∀ ts : List XTok, ts.length ≤ n → (∀ x ∈ ts, WfTokP x) →
-    ∀ (m : LexMode) (om : Bool) (br : Nat), lexOk m ts = true → piEndHazard (m == .pi) ts = false →
+    ∀ (m : LexMode) (om : Bool) (br : Nat), lexOk m ts = true →
     lexOk m (emitGo o om br (m == .pi) 0 ts) = true := by
   induction n with
   | zero =>
-    intro ts hl _ m om br h _
+    intro ts hl _ m om br h
     have : ts = [] := List.length_eq_zero_iff.mp (by omega)
     subst this; simpa [emitGo] using h
   | succ n ih =>
-    intro ts hl hwf m om br h hz
+    intro ts hl hwf m om br h
     cases ts with
     | nil => simpa [emitGo] using h
     | cons t r =>
@@ -166,31 +71,28 @@ theorem emitGo_lexOk (o : XmlOpts) (n : Nat) : ∀ ts : List XTok, ts.length ≤
       cases m with
       | content =>
         have hpi : (LexMode.content == LexMode.pi) = false := rfl
-        simp only [hpi] at hz ⊢
+        simp only [hpi]
         cases t with
         | text d =>
           simp only [lexOk, Bool.and_eq_true] at h
-          have hz' : piEndHazard false r = false := by simpa [piEndHazard] using hz
           simp only [emitGo]
-          exact lexOk_emitText _ _ (ih r hlr hwr .content _ _ h.2 hz')
+          exact lexOk_emitText _ _ (ih r hlr hwr .content _ _ h.2 )
         | comment d =>
           simp only [lexOk] at h
-          have hz' : piEndHazard false r = false := by simpa [piEndHazard] using hz
           simp only [emitGo]
-          exact ih r hlr hwr .content om br h hz'
+          exact ih r hlr hwr .content om br h
         | cdata data txt =>
           have ht : WfCDataText txt := hwf (.cdata data txt) (by simp)
           simp only [lexOk, Bool.and_eq_true] at h
-          have hz' : piEndHazard false r = false := by simpa [piEndHazard] using hz
           by_cases hemp : txt = []
           · subst hemp
             simp only [emitGo, List.isEmpty_nil, if_true]
-            exact ih r hlr hwr .content om br h.2 hz'
+            exact ih r hlr hwr .content om br h.2
           · have hne : txt.isEmpty = false := by simpa using hemp
             cases he : escapeCDATAVal txt with
             | none =>
               simp only [emitGo, hne, he, Bool.false_eq_true, if_false, lexOk, h.1, Bool.true_and]
-              exact ih r hlr hwr .content _ 0 h.2 hz'
+              exact ih r hlr hwr .content _ 0 h.2
             | some e =>
               have hwe := (cdata_token txt e ht he).2.2 hemp
               have h2 := escCD_text br e (Or.inr hwe)
@@ -198,27 +100,23 @@ theorem emitGo_lexOk (o : XmlOpts) (n : Nat) : ∀ ts : List XTok, ts.length ≤
                 intro h0
                 exact wfText_ne_nil e hwe (h2.2.2.mp h0)
               simp only [emitGo, hne, he, Bool.false_eq_true, if_false, lexOk, Bool.and_eq_true, Bool.not_eq_true']
-              exact ⟨by simpa using hne2, ih r hlr hwr .content _ _ h.2 hz'⟩
+              exact ⟨by simpa using hne2, ih r hlr hwr .content _ _ h.2⟩
         | doctype d =>
           simp only [lexOk, Bool.and_eq_true] at h
-          have hz' : piEndHazard false r = false := by simpa [piEndHazard] using hz
           simp only [emitGo, lexOk, h.1, Bool.true_and]
-          exact ih r hlr hwr .content om 0 h.2 hz'
+          exact ih r hlr hwr .content om 0 h.2
         | endTag d nm =>
           simp only [lexOk, Bool.and_eq_true] at h
-          have hz' : piEndHazard false r = false := by simpa [piEndHazard] using hz
           simp only [emitGo, lexOk, endTagOk_out d nm h.1, Bool.true_and]
-          exact ih r hlr hwr .content _ 0 h.2 hz'
+          exact ih r hlr hwr .content _ 0 h.2
         | startTag nm =>
           simp only [lexOk, Bool.and_eq_true] at h
-          have hz' : piEndHazard false r = false := by simpa [piEndHazard] using hz
           simp only [emitGo, lexOk, h.1, Bool.true_and]
-          exact ih r hlr hwr .tag _ 0 h.2 hz'
+          exact ih r hlr hwr .tag _ 0 h.2
         | startTagPI nm =>
           simp only [lexOk, Bool.and_eq_true] at h
-          have hz' : piEndHazard true r = false := by simpa [piEndHazard] using hz
           simp only [emitGo, lexOk, h.1, Bool.true_and]
-          exact ih r hlr hwr .pi om 0 h.2 hz'
+          exact ih r hlr hwr .pi om 0 h.2
         | attr nm v => simp [lexOk] at h
         | attrBare d nm => simp [lexOk] at h
         | startTagClose => simp [lexOk] at h
@@ -226,53 +124,45 @@ theorem emitGo_lexOk (o : XmlOpts) (n : Nat) : ∀ ts : List XTok, ts.length ≤
         | startTagClosePI => simp [lexOk] at h
       | tag =>
         have hpi : (LexMode.tag == LexMode.pi) = false := rfl
-        simp only [hpi] at hz ⊢
+        simp only [hpi]
         cases t with
         | attr nm v =>
           simp only [lexOk, Bool.and_eq_true] at h
-          have hz' : piEndHazard false r = false := by simpa [piEndHazard] using hz
-          simp only [emitGo, lexOk, h.1, Bool.true_and]
-          exact ih r hlr hwr .tag om 0 h.2 hz'
+          simp only [emitGo, Bool.false_eq_true, if_false, lexOk, h.1, Bool.true_and]
+          exact ih r hlr hwr .tag om 0 h.2
         | startTagCloseVoid =>
           simp only [lexOk] at h
-          have hz' : piEndHazard false r = false := by simpa [piEndHazard] using hz
           simp only [emitGo, lexOk]
-          exact ih r hlr hwr .content om 0 h hz'
+          exact ih r hlr hwr .content om 0 h
         | startTagClose =>
           simp only [lexOk] at h
-          have hz' : piEndHazard false r = false := by simpa [piEndHazard] using hz
           rcases collapseSkip_cases o r with hc | ⟨d, nm, r', rfl, hc⟩ | ⟨d, d2, nm, r', rfl, _, _, hc⟩
-          · simp only [emitGo, hc, lexOk]
-            exact ih r hlr hwr .content om 0 h hz'
+          · simp only [emitGo, Bool.false_eq_true, if_false, hc, lexOk]
+            exact ih r hlr hwr .content om 0 h
           · simp only [lexOk, Bool.and_eq_true] at h
-            simp only [emitGo, hc, lexOk]
+            simp only [emitGo, Bool.false_eq_true, if_false, hc, lexOk]
             exact ih r' (by simp at hlr; omega) (wf_tail hwr) .content om 0 h.2
-              (show piEndHazard false r' = false by simpa [piEndHazard] using hz')
           · simp only [lexOk, Bool.and_eq_true] at h
-            simp only [emitGo, hc, lexOk]
+            simp only [emitGo, Bool.false_eq_true, if_false, hc, lexOk]
             exact ih r' (by simp at hlr; omega) (wf_tail (wf_tail hwr)) .content om 0 h.2.2
-              (show piEndHazard false r' = false by simpa [piEndHazard] using hz')
         | _ => simp [lexOk] at h
       | pi =>
         have hpi : (LexMode.pi == LexMode.pi) = true := rfl
-        simp only [hpi] at hz ⊢
+        simp only [hpi]
         cases t with
         | attr nm v =>
           have hv : WfAttrVal v := hwf (.attr nm v) (by simp)
           simp only [lexOk, Bool.and_eq_true, Bool.not_eq_true'] at h
-          simp only [piEndHazard, Bool.or_eq_false_iff] at hz
-          simp only [emitGo, lexOk, h.1.1, attrOut_has2 v hv h.1.2 hz.1, Bool.true_and, Bool.not_false]
-          exact ih r hlr hwr .pi om 0 h.2 hz.2
+          simp only [emitGo, if_true, attrOutPI_id v hv, lexOk, h.1.1, h.1.2, Bool.true_and, Bool.not_false]
+          exact ih r hlr hwr .pi om 0 h.2
         | attrBare d nm =>
           simp only [lexOk, Bool.and_eq_true] at h
-          have hz' : piEndHazard true r = false := by simpa [piEndHazard] using hz
           simp only [emitGo, if_true, lexOk, h.1, Bool.true_and]
-          exact ih r hlr hwr .pi om 0 h.2 hz'
+          exact ih r hlr hwr .pi om 0 h.2
         | startTagClosePI =>
           simp only [lexOk] at h
-          have hz' : piEndHazard false r = false := by simpa [piEndHazard] using hz
           simp only [emitGo, lexOk]
-          exact ih r hlr hwr .content om 0 h hz'
+          exact ih r hlr hwr .content om 0 h
         | _ => simp [lexOk] at h
 
 
@@ -306,7 +196,7 @@ theorem emitGo_no_comment (o : XmlOpts) (n : Nat) : ∀ ts : List XTok, ts.lengt
       cases t with
       | startTag nm => simpa only [emitGo] using step (.startTag nm) _ 0 pi rfl
       | endTag d nm => simpa only [emitGo] using step (.endTag (endTagOut d nm) nm) _ 0 pi rfl
-      | attr nm v => simpa only [emitGo] using step (.attr nm (attrOut v)) om 0 pi rfl
+      | attr nm v => simpa only [emitGo] using step (.attr nm (if pi then attrOutPI v else attrOut v)) om 0 pi rfl
       | attrBare d nm =>
         simp only [emitGo]
         cases pi with
@@ -316,22 +206,26 @@ theorem emitGo_no_comment (o : XmlOpts) (n : Nat) : ∀ ts : List XTok, ts.lengt
       | startTagClosePI => simpa only [emitGo] using step .startTagClosePI om 0 false rfl
       | doctype d => simpa only [emitGo] using step (.doctype d) om 0 pi rfl
       | comment d => simpa only [emitGo] using ih r hlr om br pi
-      | startTagCloseVoid => simpa only [emitGo] using step .startTagCloseVoid om 0 pi rfl
+      | startTagCloseVoid => simpa only [emitGo] using step .startTagCloseVoid om 0 false rfl
       | startTagClose =>
+        cases pi with
+        | true => simpa only [emitGo, if_true] using step .startTagClose om 0 false rfl
+        | false =>
+        simp only [emitGo, Bool.false_eq_true, if_false]
         rcases collapseSkip_cases o r with hc | ⟨d, nm, r', rfl, hc⟩ | ⟨d, d2, nm, r', rfl, _, _, hc⟩
-        · simpa only [emitGo, hc] using step .startTagClose om 0 pi rfl
+        · simpa only [hc] using step .startTagClose om 0 false rfl
         · simp only [emitGo, hc]
           intro y hy
           simp only [List.mem_cons] at hy
           rcases hy with rfl | hy
           · rfl
-          · exact ih r' (by simp at hlr; omega) om 0 pi y hy
+          · exact ih r' (by simp at hlr; omega) om 0 false y hy
         · simp only [emitGo, hc]
           intro y hy
           simp only [List.mem_cons] at hy
           rcases hy with rfl | hy
           · rfl
-          · exact ih r' (by simp at hlr; omega) om 0 pi y hy
+          · exact ih r' (by simp at hlr; omega) om 0 false y hy
       | cdata data txt =>
         simp only [emitGo]
         split
@@ -406,11 +300,61 @@ theorem lexOk_shape : ∀ (ts : List XTok) (m : LexMode), lexOk m ts = true →
       | _ => simp [lexOk] at h
 
 
+/-- in a stream of the lexer contract no `>` / `/>` occurs inside a PI: its bytes are the concatenation of the tokens' bytes -/
+theorem lexOk_noClose : ∀ (ts : List XTok) (m : LexMode), lexOk m ts = true → noCloseInPI (m == .pi) ts = true := by
+  have e2 : (LexMode.content == LexMode.pi) = false := rfl
+  have e4 : (LexMode.tag == LexMode.pi) = false := rfl
+  have e6 : (LexMode.pi == LexMode.pi) = true := rfl
+  intro ts
+  induction ts with
+  | nil => intro m _; rfl
+  | cons t r ih =>
+    intro m h
+    have ic := ih .content
+    have it := ih .tag
+    have ip := ih .pi
+    simp only [e2, e4, e6] at ic it ip
+    cases m with
+    | content =>
+      simp only [e2]
+      cases t with
+      | text d => simp only [lexOk, Bool.and_eq_true] at h; simpa [noCloseInPI] using ic h.2
+      | comment d => simp only [lexOk] at h; simpa [noCloseInPI] using ic h
+      | cdata d t' => simp only [lexOk, Bool.and_eq_true] at h; simpa [noCloseInPI] using ic h.2
+      | doctype d => simp only [lexOk, Bool.and_eq_true] at h; simpa [noCloseInPI] using ic h.2
+      | endTag d n => simp only [lexOk, Bool.and_eq_true] at h; simpa [noCloseInPI] using ic h.2
+      | startTag n => simp only [lexOk, Bool.and_eq_true] at h; simpa [noCloseInPI] using it h.2
+      | startTagPI n => simp only [lexOk, Bool.and_eq_true] at h; simpa [noCloseInPI] using ip h.2
+      | attr n v => simp [lexOk] at h
+      | attrBare d n => simp [lexOk] at h
+      | startTagClose => simp [lexOk] at h
+      | startTagCloseVoid => simp [lexOk] at h
+      | startTagClosePI => simp [lexOk] at h
+    | tag =>
+      simp only [e4]
+      cases t with
+      | attr n v => simp only [lexOk, Bool.and_eq_true] at h; simpa [noCloseInPI] using it h.2
+      | startTagClose => simp only [lexOk] at h; simpa [noCloseInPI] using ic h
+      | startTagCloseVoid => simp only [lexOk] at h; simpa [noCloseInPI] using ic h
+      | _ => simp [lexOk] at h
+    | pi =>
+      simp only [e6]
+      cases t with
+      | attr n v => simp only [lexOk, Bool.and_eq_true] at h; simpa [noCloseInPI] using ip h.2
+      | attrBare d n => simp only [lexOk, Bool.and_eq_true] at h; simpa [noCloseInPI] using ip h.2
+      | startTagClosePI => simp only [lexOk] at h; simpa [noCloseInPI] using ic h
+      | _ => simp [lexOk] at h
+
+/-- the bytes written for the emitted stream of a lexer-contract stream -/
+theorem xmlMinify_bytes (o : XmlOpts) (ts : List XTok) (h : lexOk .content (emit o true ts) = true) :
+    xmlMinify o ts = bytesOf (emit o true ts) := by
+  rw [bytesOf_renderAll]
+  exact renderGo_eq_renderAll _ false (lexOk_noClose _ .content h)
+
 /-! ## the emitted stream: all facts together -/
 
 /-- what is known about the stream written by the loop (C06 `xml_wellformed` lifted, plus shape and contracts) -/
-theorem emit_facts (o : XmlOpts) (ts : List XTok) (hwf : ∀ x ∈ ts, WfTokP x) (hlex : lexOk .content ts = true)
-    (hz : piEndHazard false ts = false) :
+theorem emit_facts (o : XmlOpts) (ts : List XTok) (hwf : ∀ x ∈ ts, WfTokP x) (hlex : lexOk .content ts = true) :
     (∀ y ∈ emit o true ts, WfOutP y) ∧ rawCdEnd (emit o true ts) = false ∧
       lexOk .content (emit o true ts) = true ∧ ∀ d, XTok.comment d ∉ emit o true ts := by
   have hsh := lexOk_shape ts .content hlex
@@ -420,22 +364,22 @@ theorem emit_facts (o : XmlOpts) (ts : List XTok) (hwf : ∀ x ∈ ts, WfTokP x)
     intro run hr
     rw [← cdAuto_hasCdEnd]
     simpa using h run hr
-  · exact emitGo_lexOk o ts.length ts (Nat.le_refl _) hwf .content true 0 hlex hz
+  · exact emitGo_lexOk o ts.length ts (Nat.le_refl _) hwf .content true 0 hlex
 
 /-! ## canonical streams are lexer-shaped streams -/
 
 theorem canon_lexOk (n : Nat) : ∀ (vs : List XTok), vs.length ≤ n → ∀ tg, canonOk tg vs = true →
-    lexOk (if tg then .tag else .content) vs = true ∧ piEndHazard false vs = false := by
+    lexOk (if tg then .tag else .content) vs = true := by
   induction n with
   | zero =>
     intro vs hl tg h
     have : vs = [] := List.length_eq_zero_iff.mp (by omega)
     subst this
-    cases tg <;> simp_all [canonOk, lexOk, piEndHazard]
+    cases tg <;> simp_all [canonOk, lexOk]
   | succ n ih =>
     intro vs hl tg h
     cases vs with
-    | nil => cases tg <;> simp_all [canonOk, lexOk, piEndHazard]
+    | nil => cases tg <;> simp_all [canonOk, lexOk]
     | cons t r =>
       simp only [List.length_cons] at hl
       have hlr : r.length ≤ n := by omega
@@ -447,32 +391,32 @@ theorem canon_lexOk (n : Nat) : ∀ (vs : List XTok), vs.length ≤ n → ∀ tg
           simp only [canonOk, Bool.and_eq_true] at h
           have := ih r hlr false h.2
           simp only [Bool.false_eq_true, if_false] at this
-          simp only [lexOk, piEndHazard, h.1.1.1, this, Bool.true_and, and_self]
+          simp only [lexOk, h.1.1.1, this, Bool.true_and]
         | comment d =>
           simp only [canonOk, Bool.and_eq_true] at h
           have := ih r hlr false h.2
           simp only [Bool.false_eq_true, if_false] at this
-          simp only [lexOk, piEndHazard, this, and_self]
+          simp only [lexOk, this]
         | cdata d t' =>
           simp only [canonOk, Bool.and_eq_true] at h
           have := ih r hlr false h.2
           simp only [Bool.false_eq_true, if_false] at this
-          simp only [lexOk, piEndHazard, h.1, this, Bool.true_and, and_self]
+          simp only [lexOk, h.1, this, Bool.true_and]
         | doctype d =>
           simp only [canonOk, Bool.and_eq_true] at h
           have := ih r hlr false h.2
           simp only [Bool.false_eq_true, if_false] at this
-          simp only [lexOk, piEndHazard, h.1, this, Bool.true_and, and_self]
+          simp only [lexOk, h.1, this, Bool.true_and]
         | endTag d nm =>
           simp only [canonOk, Bool.and_eq_true] at h
           have := ih r hlr false h.2
           simp only [Bool.false_eq_true, if_false] at this
-          simp only [lexOk, piEndHazard, h.1, this, Bool.true_and, and_self]
+          simp only [lexOk, h.1, this, Bool.true_and]
         | startTag nm =>
           simp only [canonOk, Bool.and_eq_true] at h
           have := ih r hlr true h.2
           simp only [if_true] at this
-          simp only [lexOk, piEndHazard, h.1, this, Bool.true_and, and_self]
+          simp only [lexOk, h.1, this, Bool.true_and]
         | startTagPI nm =>
           cases r with
           | nil => simp [canonOk] at h
@@ -482,7 +426,7 @@ theorem canon_lexOk (n : Nat) : ∀ (vs : List XTok), vs.length ≤ n → ∀ tg
               simp only [canonOk, Bool.and_eq_true] at h
               have := ih r2 (by simp at hlr; omega) false h.2
               simp only [Bool.false_eq_true, if_false] at this
-              simp only [lexOk, piEndHazard, h.1, this, Bool.true_and, and_self]
+              simp only [lexOk, h.1, this, Bool.true_and]
             | attrBare d d' =>
               cases r2 with
               | nil => simp [canonOk] at h
@@ -493,7 +437,7 @@ theorem canon_lexOk (n : Nat) : ∀ (vs : List XTok), vs.length ≤ n → ∀ tg
                   obtain ⟨⟨⟨⟨hn, _⟩, hne⟩, hd⟩, hr⟩ := h
                   have := ih r3 (by simp at hlr; omega) false hr
                   simp only [Bool.false_eq_true, if_false] at this
-                  simp only [lexOk, piEndHazard, hn, hd, hne, this, Bool.true_and, and_self]
+                  simp only [lexOk, hn, hd, hne, this, Bool.true_and]
                 | _ => simp [canonOk] at h
             | _ => simp [canonOk] at h
         | _ => simp [canonOk] at h
@@ -504,17 +448,17 @@ theorem canon_lexOk (n : Nat) : ∀ (vs : List XTok), vs.length ≤ n → ∀ tg
           simp only [canonOk, Bool.and_eq_true] at h
           have := ih r hlr true h.2
           simp only [if_true] at this
-          simp only [lexOk, piEndHazard, h.1.1, this, Bool.true_and, and_self]
+          simp only [lexOk, h.1.1, this, Bool.true_and]
         | startTagClose =>
           simp only [canonOk] at h
           have := ih r hlr false h
           simp only [Bool.false_eq_true, if_false] at this
-          simp only [lexOk, piEndHazard, this, and_self]
+          simp only [lexOk, this]
         | startTagCloseVoid =>
           simp only [canonOk] at h
           have := ih r hlr false h
           simp only [Bool.false_eq_true, if_false] at this
-          simp only [lexOk, piEndHazard, this, and_self]
+          simp only [lexOk, this]
         | _ => simp [canonOk] at h
 
 /-- the reader's view keeps the tokens grammatical (`WfTokP`): merged runs of character data are character data -/
